@@ -129,6 +129,24 @@ CLAIMED = {
             "Trusted: Lean kernel; 'same shape' includes the group-occupancy pattern for GaussianNB/KMeans/forest (probes); "
             "every data-dependent draw goes through randomise; data-independent randomness fixed by an integer seed.",
             "§6 C06"),
+    "C07": ("Lean 4 proof: sensitivity lemmas for datasets of every size, split identities, per-tool privacy-loss bounds on the "
+            "release plans, rank-form density ratio for the quantile family + trace correspondence with forced outputs and "
+            "direct loss accounting on the implementation",
+            "Machine-checked over R for lists of every length n >= 1, any position of the replaced record and arbitrary (also "
+            "out-of-bounds) records, because the plan clips first: mean (<= (u-l)/n), sum (<= u-l), variance "
+            "(<= ((u-l)/n)^2 (n-1)), non-zero count (<= 1), integer-dtype sum, histogram bins (<= 1 per bin, at most two bins, "
+            "none when the record stays in its bin; any number of dimensions and edges); wrap_axis and multi-quantile splits "
+            "sum to epsilon and a record lies in exactly one entry of each cell; per-tool statements 'same configuration, same "
+            "release, every input within its sensitivity, privLoss <= eps (<= 2 eps for histograms)' for scalar and axis "
+            "variants; the density exp(eps/2 util)/Z of the quantile family changes by at most e^eps at every y under one "
+            "replacement (real interval integral). PARTIAL: the nan-variants and weighted histograms are proved only on the "
+            "regions where the code is right (NaN-free / 0 in [l,u] / unweighted) with Lean counter-examples for the rest — "
+            "listed open known findings; the step from the coded interval representation of the quantile to the rank form is "
+            "tied by correspondence. Tied to the code by running each tool with forced mechanism outputs against the Lean plan "
+            "(classes and counts exact, parameters and inputs 1e-9, release); the property is checked directly by pairing the "
+            "invocations of runs on neighbouring datasets and, for quantiles, by the exact density of the constructed mechanism.",
+            "Trusted: Lean kernel + Mathlib; numpy statistics and bin assignment; the reshape of n-d arrays to records x cells "
+            "in the harness; sequential/parallel composition cited.", "§6 C07"),
     "C08": ("Lean 4 proof: compositional privacy-loss calculus on release plans, per-estimator model_privloss, split identities "
             "and sensitivity lemmas + trace correspondence with replayed outputs and direct loss accounting on the implementation",
             "Machine-checked over R for every dataset, every single-record replacement and every forced-output sequence: "
@@ -145,6 +163,23 @@ CLAIMED = {
             "Trusted: Lean kernel + Mathlib; cited: eigenvalue perturbation bound, Bingham's guarantee, adaptive composition; "
             "numpy tie order in argsort (GaussianNB count repair) excludes a third of fits from the trace comparison.",
             "§6 C08"),
+    "C09": ("Lean 4 proof: charge-once theorems for scalar, multi-cell and nested multi-quantile queries and for model fits over "
+            "the accountant machine (control flow for any carrier) + scenario correspondence and before/after totals of all "
+            "live accountants",
+            "Machine-checked, for ANY carrier (so also for doubles): a scalar query either passes its check and appends "
+            "exactly one spend (eps,0) to the resolved accountant — explicit argument over default — leaving every other "
+            "accountant unchanged, or returns the check's error with no mechanism call and no change; with the coded up-front "
+            "test (validate eps, then 'the exact sequence of per-cell spends fits') a multi-cell query and a multi-quantile x "
+            "axis query are either refused up front or all their spends are appended — never refused part-way — under the "
+            "hypothesis that a fitting history still fits without its last spend, which is discharged over R from C05's "
+            "monotonicity (and then the spends sum to eps); a model fit checks first, runs its sub-queries on throw-away "
+            "accountants that change none of the caller's, and spends once, last, on the accountant fixed at construction. "
+            "Tied to the code by running every tool (1..400 output cells, multi-quantile) and all 8 models in every accountant "
+            "state (unlimited; remaining <, = exactly, > eps; slack) and resolution mode (explicit / with-block / set_default, "
+            "construction-time default for models) against the model, and checked directly: totals of ALL live accountants "
+            "before/after, mechanism invocations and fitted state before an error.",
+            "Trusted: Lean kernel + Mathlib; prefix-monotonicity of the accountant total on doubles is validated on exact-fit "
+            "budgets, not proved; estimator bodies are abstract here (C08 owns them).", "§6 C09"),
     "C10": ("Lean 4 proof: clip helpers in bounds / identity on the domain / idempotent for the function as coded (any linear "
             "order) + exact helper correspondence and seeded end-to-end equality f(D) == f(clip D)",
             "Machine-checked: for the whole clip_to_bounds as coded (exact-equality fast path + per-feature path) and the 1-D "
